@@ -15,7 +15,7 @@ import c14 as G                                                    # noqa: E402 
 import gen_wkt                                                     # noqa: E402  (tools/)
 import gen_wktio                                                   # noqa: E402  (tools/) writer / reader assembly
 
-from geostructures import (GeoBox, GeoCircle, GeoLineString, GeoPoint, GeoPolygon,   # noqa: E402
+from geostructures import (Coordinate, GeoBox, GeoCircle, GeoLineString, GeoPoint, GeoPolygon,   # noqa: E402
                            MultiGeoLineString, MultiGeoPoint, MultiGeoPolygon)
 from geostructures.parsers import parse_wkt                        # noqa: E402
 
@@ -675,6 +675,18 @@ def main():
             c = f['replay']['c']
             p = GeoPoint(G.Cd(tuple(c)))
             if GeoPoint.from_wkt(p.to_wkt()) != p:
+                ck.known(f)
+        if f.get('signature') == 'mixed_dimension_rings':
+            import shapely as _sh
+            rp = f['replay']
+            P = GeoPolygon([Coordinate(*c) for c in rp['shell']], holes=[GeoPolygon([Coordinate(*c) for c in rp['hole']])])
+            own = guarded(lambda: GeoPolygon.from_wkt(P.to_wkt()))
+            try:
+                _sh.from_wkt(P.to_wkt())
+                indep_ok = True
+            except Exception:   # noqa
+                indep_ok = False
+            if own[0] == 'Ok' and own[1] == P and not indep_ok:
                 ck.known(f)
         if f.get('signature') == 'digit_run_split':
             r = guarded(lambda: GeoPoint.from_wkt(f['replay']['text']))
